@@ -28,7 +28,7 @@ LEVEL = "fault_enumeration"
 RULE = (
     "Two real endpoints over the simulated link, the restarted one (client or server) with a file-backed journal. Histories "
     "(Hypothesis, <=30 actions quick / <=80 thorough, plus fixed ones) of: application sends either way, delivery of single "
-    "frames, keep-alive probes (TestRequest / Heartbeat), connection breaks (also a drain that fails after the frame was written) and reconnects (so that gaps, ResendRequests, replays and gap fills spanning several numbers "
+    "frames, keep-alive probes (TestRequest / Heartbeat), application handlers that call disconnect() from inside on_message, connection breaks (also a drain that fails after the frame was written) and reconnects (so that gaps, ResendRequests, replays and gap fills spanning several numbers "
     "occur), graceful restarts at idle points, and kills at a crash point of an operation of the restarted endpoint (a send, or "
     "the processing of one inbound frame). For 30 fixed histories EVERY crash point of the chosen operation is taken "
     "(exhaustive kill-point enumeration); generated histories draw the point. Oracle: (a) graceful: the new object's "
@@ -331,6 +331,9 @@ def _run_once(acc, side, actions, origin, tmp, forced):
             elif k == "deliver":
                 if d.can_deliver(a[1]):
                     d.deliver(a[1])
+            elif k == "armd":
+                d.ep[a[1]].disconnect_next += 1
+                r.flags.add("handler-disconnects")
             elif k == "testreq":
                 if d.connected(a[1]) and d.link_alive():
                     d.send_test_req(a[1])
@@ -395,6 +398,7 @@ act = st.one_of(
     st.tuples(st.just("deliver"), st.sampled_from(["c", "s"])),
     st.tuples(st.just("break"), st.sampled_from(KINDS)),
     st.tuples(st.just("testreq"), st.sampled_from(["c", "s"])),
+    st.tuples(st.just("armd"), st.sampled_from(["c", "s"])),
     st.tuples(st.just("reconnect")),
     st.tuples(st.just("reconnect")),
     st.tuples(st.just("graceful")),
@@ -422,6 +426,9 @@ def fixed_histories():
         H.append((side, base + [("send", side), ("send", side), ("break", "reset"), ("reconnect",), ("deliver", "c"), ("deliver", "s"), ("deliver", "c"), ("kill", "deliver", 0)]))
         H.append((side, [("kill", "deliver", 0)]))  # the very first Logon / Logon reply
         H.append((side, base + [("graceful",)]))
+        # the application ends the connection from inside on_message, then the endpoint is restarted
+        H.append((side, base + [("send", o), ("armd", side), ("deliver", o), ("graceful",)]))
+        H.append((side, base + [("send", o), ("send", o), ("armd", side), ("deliver", o), ("reconnect",), ("deliver", "c"), ("deliver", "s"), ("graceful",)]))
         # an idle session: keep-alives are the last traffic before the restart
         H.append((side, base + [("testreq", o), ("deliver", o), ("deliver", side), ("graceful",)]))
         H.append((side, base + [("testreq", side), ("deliver", side), ("deliver", o), ("testreq", o), ("deliver", o), ("kill", "deliver", 0)]))
